@@ -484,13 +484,11 @@ namespace avel {
             return lhs;
         }
 
-        /*
         [[nodiscard]]
         AVEL_FINL friend Vector operator%(Vector lhs, Vector rhs) {
             lhs %= rhs;
             return lhs;
         }
-        */
 
         //=================================================
         // Increment/Decrement operators
@@ -891,6 +889,17 @@ namespace avel {
         #elif defined(AVEL_AVX2)
         return blend(avel::isnan(b), a, avel::min(b, a));
         #endif
+    }
+
+    [[nodiscard]]
+    AVEL_FINL vec8x32f fmod(vec8x32f a, vec8x32f b) {
+        // No vectorized remainder yet: each lane is evaluated with the scalar overload
+        auto x = to_array(a);
+        auto y = to_array(b);
+        for (std::uint32_t i = 0; i < vec8x32f::width; ++i) {
+            x[i] = avel::fmod(x[i], y[i]);
+        }
+        return vec8x32f{x};
     }
 
     [[nodiscard]]
